@@ -23,7 +23,16 @@ i.e. `--release`: no overflow checks, no debug assertions):
   index out of bounds are panics (or undefined behaviour for `get_unchecked`) in Rust; here they
   return `default`. Theorems that go through them carry the hypotheses that make the case
   unreachable. `Cell<T>`, `&T` and `*e` are erased.
-* `debug_assert!` is a no-op (release).
+* `debug_assert!` is a no-op (release). `assert!(c); rest` is `RustSem.assert c rest`: the panic of a failed
+  assertion is `default` here, and the theorems about such a function state the condition.
+* `char` is Lean's `Char` (a Unicode scalar value in both), `&'static str` is `String`. The ASCII
+  predicates and case conversions of `char` are defined below from their `core` definitions
+  (`'a'..='z'`, `'A'..='Z'`, `'0'..='9'`; a case conversion moves an ASCII letter by 32 and leaves every
+  other `char` as it is). `b as char` for `b : u8` is the scalar value `b`; `c as <int>` is the scalar
+  value of `c` reduced into the integer type.
+* A `const` table of another module that is computed at compile time from a binary file
+  (`zobrist::STATE`, `zobrist::PIECE`) is a PARAMETER of every generated function that reads it (and of
+  its callers), with the Rust array type as `Array …`; the theorems instantiate it.
 -/
 namespace Chess.RustSem
 
@@ -79,8 +88,29 @@ def unwrap {α : Type} [Inhabited α] (o : Option α) : α :=
   match o with
   | some a => a
   | none => default
+/-- `assert!(c); v`: a failed assertion is a panic in Rust (every profile), `default` here -/
+def assert {α : Type} [Inhabited α] (c : Bool) (v : α) : α := if c then v else default
 /-- `a[i]`, `*a.get_unchecked(i)`; out of bounds is a panic / undefined in Rust, `default` here -/
 def index {α : Type} [Inhabited α] (a : Array α) (i : Usize) : α := a.getD i default
+
+/-- `char::is_ascii_lowercase` (`matches!(c, 'a'..='z')`) -/
+def isAsciiLowercase (c : Char) : Bool := decide (97 ≤ c.toNat) && decide (c.toNat ≤ 122)
+/-- `char::is_ascii_uppercase` (`matches!(c, 'A'..='Z')`) -/
+def isAsciiUppercase (c : Char) : Bool := decide (65 ≤ c.toNat) && decide (c.toNat ≤ 90)
+/-- `char::is_ascii_digit` (`matches!(c, '0'..='9')`) -/
+def isAsciiDigit (c : Char) : Bool := decide (48 ≤ c.toNat) && decide (c.toNat ≤ 57)
+/-- `char::is_ascii_alphabetic` -/
+def isAsciiAlphabetic (c : Char) : Bool := isAsciiLowercase c || isAsciiUppercase c
+/-- `char::is_ascii` -/
+def isAscii (c : Char) : Bool := decide (c.toNat ≤ 127)
+/-- `char::to_ascii_uppercase`: an ASCII lowercase letter loses bit 5 (`- 32`), any other `char` is unchanged -/
+def toAsciiUppercase (c : Char) : Char := if isAsciiLowercase c then Char.ofNat (c.toNat - 32) else c
+/-- `char::to_ascii_lowercase`: an ASCII uppercase letter gains bit 5 (`+ 32`), any other `char` is unchanged -/
+def toAsciiLowercase (c : Char) : Char := if isAsciiUppercase c then Char.ofNat (c.toNat + 32) else c
+/-- `b as char` for `b : u8` -/
+def u8ToChar (b : UInt8) : Char := Char.ofNat b.toNat
+/-- `c as T` for `c : char` and an integer type `T` -/
+def charCast {β : Type} [RInt β] (c : Char) : β := RInt.ofInt (c.toNat : Int)
 
 instance : Inhabited Int8 := ⟨0⟩
 instance : Inhabited Int16 := ⟨0⟩
